@@ -437,6 +437,8 @@ func (w *World) userRegister(ui int, op *UserOp) {
 				c = wrappedTCP{v}
 			case *vnet.UnixConn:
 				c = wrappedUnix{v}
+			case *vnet.UDPConn:
+				c = wrappedUDP{v}
 			}
 			w.probes["enroll-unsupported-type"]++
 		}
@@ -518,4 +520,5 @@ func (w *World) userRegister(ui int, op *UserOp) {
 // connection types gnet has no case for (they are syscall.Conn through the
 // embedded connection)
 type wrappedTCP struct{ *vnet.TCPConn }
+type wrappedUDP struct{ *vnet.UDPConn }
 type wrappedUnix struct{ *vnet.UnixConn }
